@@ -38,17 +38,20 @@ TRUSTED_BASE = ["Coq 8.16.1 kernel (coqc), vm_compute for the witnesses", "Extra
                 "harness/h_codec.cpp + meta_dump.hpp; ocaml/prelude.ml + ocaml/c03_driver.ml; vlib/codecgen.py + this suite"]
 ASSUMPTIONS = ["ASan reports the first write past a stack array (redzones >= 32 bytes): an overrun never goes unnoticed",
                "texts of float/date/time typed fields in generated inputs are the unchanged canonical texts of a valid "
-               "message (their parsers are C08/C09's subject); int texts are arbitrary and fast_atoi<int> UB is predicted",
+               "message (their parsers are C08/C09's subject) or texts for which the model predicts UB in parse_decimal / "
+               "time_to_epoch; int texts are arbitrary and fast_atoi<int> UB is predicted",
                "no generated input makes decode read tag[] beyond the bytes written (Length field followed by a longer "
                "tag): that read of uninitialised stack is unobservable under ASan (model class OOB 4, C06's defect)",
-               "a run that burns > 2 s CPU or grows > 1 GB is a hang (legitimate 8 KB decodes take milliseconds)"]
+               "a run that burns > 2 s CPU or grows by > 1 GB is a hang (legitimate 8 KB decodes take milliseconds); every HANG "
+               "verdict is confirmed by a second isolated run"]
 RULE = ("valid messages generated from the dumped metadata (wire bytes built independently in Python, and RT through the "
         "real encoder); malformed stream derived from them: truncation at every offset, byte flips (NUL, SOH, '=', digits, "
         ">= 0x80), deleted '=' / SOH, tags of 31/32/33/2047/2048/2049 digits and tags >= 65536, values of "
         "2046..2049/3000/5000 bytes in header, body, group and trailer fields, BeginString/BodyLength/MsgType at their "
         "capacities, huge / UB group counts, NULs, Length/data pairs with wrong lengths, the group-hang shape in groups "
         "with and without mandatory members; ENC with a string field of 0..9000 bytes around the output[] boundary; "
-        "REENC of long messages; fast_atoi and calc_chksum site probes. non-trivial = input of >= 40 bytes whose run "
+        "REENC of long messages; fast_atoi, date/time parser and calc_chksum site probes; of the incidental hang "
+        "shapes (truncation / flip inside an open group without mandatory member) a sample is kept. non-trivial = input of >= 40 bytes whose run "
         "produced a classified result; distinct = distinct case lines")
 
 SOH = b"\x01"
@@ -87,7 +90,8 @@ def risky(case, rest):
     try:
         if w[0] in ("DEC", "REENC"):
             data = bytes.fromhex(w[2]) if w[2] != "-" else b""
-            return run_violates(data) or hdr_violates(data) or (w[0] == "REENC" and len(data) > 8000)
+            return run_violates(data) or hdr_violates(data) or (w[0] == "REENC" and len(data) > 8000) or \
+                hang_shape(_meta_of(case), data)
         if w[0] == "ENC":
             return len(rest) > 16000
         if w[0] == "ATOI":
@@ -101,7 +105,13 @@ def risky(case, rest):
     return False
 
 
-def run_chunk(exe, lines, flags):
+def _meta_of(case):
+    built = _state["built"]
+    schema, _ = G.schema_of(case.line, next(iter(built["exes3"])))
+    return built["metas"][schema]
+
+
+def run_chunk(exe, lines, flags, confirm=True):
     """Line protocol with crash recovery: a case that kills the harness is re-run isolated ('!')."""
     n = len(lines)
     res = [None] * n
@@ -129,6 +139,13 @@ def run_chunk(exe, lines, flags):
                 start += 1
             else:
                 forced.add(start)
+    # a HANG verdict rests on CPU / memory accounting of a child on a possibly overloaded machine:
+    # confirm each one by a second isolated run
+    hangs = [k for k in range(n) if res[k] == "HANG"]
+    if hangs and confirm:
+        again = run_chunk(exe, [lines[k] for k in hangs], [True] * len(hangs), confirm=False)
+        for k, r in zip(hangs, again):
+            res[k] = r
     return res
 
 
@@ -439,7 +456,7 @@ def gen_schema(rng, tier, meta, px, cs):
     # -- mostly valid
     for mt in types:
         cs.append(dec(px, "s", valid(mtype=mt)[4], "valid-type"))
-    for i in range(k(200, 1500)):
+    for i in range(k(200, 800)):
         g = rich if i % 4 == 0 else gen
         mt, hdr, body, trl, w = valid(g)
         cs.append(dec(px, pick_modes(rng), w, "valid"))
@@ -447,14 +464,14 @@ def gen_schema(rng, tier, meta, px, cs):
         cs.append(Case(px + "RT s " + G.ser_msg(*gen.message()), "roundtrip"))
 
     # -- truncation at every offset
-    for _ in range(k(3, 12)):
-        mt, hdr, body, trl, w = valid(max_wire=260 if not thorough else 600)
+    for _ in range(k(3, 8)):
+        mt, hdr, body, trl, w = valid(max_wire=260 if not thorough else 400)
         for n in range(len(w)):
             cs.append(dec(px, "s" if n % 5 else "p", w[:n], "truncate"))
     # -- byte flips
     alphabet = [0, 1, 1, 61, 61, 48, 57, 49, 0x80, 0xff, 65, 32, 124]
     n = 0
-    while n < k(320, 3000):
+    while n < k(320, 1500):
         mt, hdr, body, trl, w = valid()
         al = allowed_of(w)
         b = bytearray(w)
@@ -467,7 +484,7 @@ def gen_schema(rng, tier, meta, px, cs):
             n += 1
     # -- deleted / duplicated separators, swapped tokens, junk
     n = 0
-    while n < k(120, 1000):
+    while n < k(120, 500):
         mt, hdr, body, trl, w = valid()
         al = allowed_of(w)
         idx = [i for i, ch in enumerate(w) if ch in (1, 61)]
@@ -763,7 +780,20 @@ def gen_cases(rng, tier):
     for schema in schemas(tier):
         meta = built["metas"][schema]
         px = "" if schema == default else "@%s " % schema
-        gen_schema(rng, tier, meta, px, cs)
+        mine = []
+        gen_schema(rng, tier, meta, px, mine)
+        # truncation and flips inside an open group without mandatory member are hangs (F08), each
+        # costing seconds of CPU: keep a sample of them
+        budget = 60 if tier == "thorough" else 10
+        for c in mine:
+            w = c.line.split(" ")
+            if not c.cls.startswith("hang-shape") and "DEC" in w[:2]:
+                hx = w[-1]
+                if hang_shape(meta, bytes.fromhex(hx) if hx != "-" else b""):
+                    if budget <= 0:
+                        continue
+                    budget -= 1
+            cs.append(c)
     return cs
 
 
@@ -845,40 +875,41 @@ def c_encode_overflow(case, r, m):
     return False
 
 
-def _class_tags(meta, sub, seen=None):
-    """tags of a group class and of the classes nested in it"""
-    seen = set() if seen is None else seen
-    for t in meta.traits.get(sub, []):
-        seen.add(t.fnum)
-    for f, s2 in meta.groups.get(sub, {}).items():
-        _class_tags(meta, s2, seen)
-    return seen
+def hang_shape(meta, data):
+    """Follow the group nesting the way decode_group does (a tag foreign to the innermost open group
+    closes it and is looked at again one level up; a count > 0 opens the nested class) up to the
+    first bytes extract_element rejects: True if at that point the innermost open group is of a
+    class without mandatory member."""
+    m35 = re.match(rb"\d*=[^\x01]*\x01\d*=[^\x01]*\x0135=([^\x01]*)\x01", data)
+    bottom = ["header", m35.group(1).decode("latin1") if m35 else "", "trailer"]
+    stack = []
+    pos = 0
+    while pos < len(data):
+        m_ = re.match(rb"(\d*)=([^\x01]*)\x01", data[pos:])
+        if not m_:
+            return bool(stack) and not any(t.mandatory for t in meta.traits.get(stack[-1], []))
+        pos += m_.end()
+        if not m_.group(1) or len(m_.group(1)) > 11:
+            tag = -1
+        else:
+            tag = int(m_.group(1)) % 2 ** 32 % 65536
+        while stack and all(t.fnum != tag for t in meta.traits.get(stack[-1], [])):
+            stack.pop()
+        v = py_atoi_u32(m_.group(2))
+        if 0 < v < 2 ** 31:
+            for o in ([stack[-1]] if stack else bottom):
+                sub = meta.groups.get(o, {}).get(tag)
+                if sub is not None:
+                    stack.append(sub)
+                    break
+    return False
 
 
 def c_group_hang(case, r, m):
     """The input opens a group whose class has no mandatory member (count > 0) and, while that group
-    is open (only tags of the class seen since), presents bytes that extract_element rejects."""
+    is the innermost open one, presents bytes that extract_element rejects."""
     meta, data = _dec_bytes(case)
-    if data is None or r != "HANG":
-        return False
-    no, yes = nomand_groups(meta)
-    subs = {}
-    for _, f, sub in no:
-        subs.setdefault(f, set()).update(_class_tags(meta, sub))
-    pos = 0
-    open_tags = None
-    end = len(data)        # body groups are decoded with ignore = 0: up to the very end
-    while pos < end:
-        m_ = re.match(rb"(\d*)=([^\x01]*)\x01", data[pos:end])
-        if not m_:
-            return open_tags is not None
-        pos += m_.end()
-        tag = int(m_.group(1)) % 65536 if m_.group(1) and len(m_.group(1)) < 12 else -1
-        if open_tags is not None and tag not in open_tags:
-            open_tags = None
-        if tag in subs and re.match(rb"0*[1-9]", m_.group(2)):
-            open_tags = subs[tag]
-    return False
+    return data is not None and r == "HANG" and hang_shape(meta, data)
 
 
 def c_atoi_ub(case, r, m):
